@@ -251,6 +251,7 @@ func run(c *ev.Ctx) {
 		})
 	}
 	spines(c)
+	anyFamily(c)
 }
 
 func replay(raw stdjson.RawMessage) (bool, string) {
